@@ -464,27 +464,25 @@ def apply_rules(body, rules, counts):
     return body
 
 
-def insert_loop_annotations(body, loops, pre=None):
+def insert_loop_annotations(body, loops, pre=None, post=None):
     """loops: {ordinal: text}. Insert text before the `{` of the n-th loop (for/while/loop, source order);
-    pre: {ordinal: ghost statements} inserted immediately before the loop statement."""
+    pre: {ordinal: ghost statements} inserted immediately before the loop statement;
+    post: {ordinal: ghost statements} inserted immediately after the loop's closing brace."""
     pre = pre or {}
-    if not loops and not pre:
+    post = post or {}
+    if not loops and not pre and not post:
         return body
     bm = code_mask(body)
     heads = [m for m in re.finditer(r"\b(for|while|loop)\b", body) if bm[m.start()]]
-    out = body
-    shift = 0
-    for n in sorted(set(loops) | set(pre)):
+    ins = []   # (position in the ORIGINAL body, order, text)
+    for n in sorted(set(loops) | set(pre) | set(post)):
         if n > len(heads):
             raise LostAnchor("loop #%d not found (body has %d loops)" % (n, len(heads)))
         h = heads[n - 1]
         if n in pre:
             # statement start: R13 may have put `let __v = ..;` right before the loop keyword on the same line
-            st = h.start()
-            ins0 = "\n" + pre[n] + "\n"
-            out = out[:st + shift] + ins0 + out[st + shift:]
-            shift += len(ins0)
-        if n not in loops:
+            ins.append((h.start(), 0, "\n" + pre[n] + "\n"))
+        if n not in loops and n not in post:
             continue
         j = h.end()
         depth = 0
@@ -497,11 +495,15 @@ def insert_loop_annotations(body, loops, pre=None):
                 elif body[j] == "{" and depth == 0:
                     break
             j += 1
-        ins = "\n" + loops[n] + "\n"
-        out = out[:j + shift] + ins + out[j + shift:]
-        shift += len(ins)
+        if n in loops:
+            ins.append((j, 1, "\n" + loops[n] + "\n"))
+        if n in post:
+            c = match_close(body, bm, j)
+            ins.append((c + 1, 2, "\n" + post[n] + "\n"))
+    out = body
+    for pos, _, text in sorted(ins, key=lambda t: (t[0], t[1]), reverse=True):
+        out = out[:pos] + text + out[pos:]
     return out
-
 
 
 def iter_match_arms(text, mask, lo, hi):
@@ -665,6 +667,7 @@ def build_unit(template_path, src_dir, verus_dir):
     meta = {"rules": {}, "sliced": []}
     loops = {}
     preloops = {}
+    postloops = {}
     ghosts = []
     cache = {}
     consts = {}
@@ -729,6 +732,9 @@ def build_unit(template_path, src_dir, verus_dir):
         elif s.startswith("//@PRELOOP"):
             m = re.match(r"//@PRELOOP\s+(\d+)\s+(.*)", s)
             preloops[int(m.group(1))] = preloops.get(int(m.group(1)), "") + " " + m.group(2)
+        elif s.startswith("//@POSTLOOP"):
+            m = re.match(r"//@POSTLOOP\s+(\d+)\s+(.*)", s)
+            postloops[int(m.group(1))] = postloops.get(int(m.group(1)), "") + " " + m.group(2)
         elif s.startswith("//@VACUITY"):
             out.append("/*@VACUITY*/")
         elif s.startswith("//@ASSUMES"):
@@ -875,9 +881,10 @@ def build_unit(template_path, src_dir, verus_dir):
             if nexp:
                 meta["rules"]["R5"] = meta["rules"].get("R5", 0) + nexp
             body = apply_rules(body, rules, meta["rules"])
-            body = insert_loop_annotations(body, loops, preloops)
+            body = insert_loop_annotations(body, loops, preloops, postloops)
             loops = {}
             preloops = {}
+            postloops = {}
             # ghost-only statements (erased by Verus) inserted after a named statement of the extracted body
             for anchor, text, where_ in ghosts:
                 if where_.endswith("_all"):
